@@ -29,6 +29,7 @@ def run(ck):
         return
     rule_R(ck, lib)
     rule_P(ck, lib)
+    rule_H(ck, lib)
     rule_S(ck, lib)
 
 
@@ -269,3 +270,43 @@ def async_rules(ck, lib, rid):
                     bad.append("%s calls %s" % (m["def"], c))
     ck.judge(not bad, rid, "crate:no-hand-written-futures", "no Future impl and no use of core::task in the library",
              "hand-written future machinery: %s" % bad[:5])
+
+
+# ---------------------------------------------------------------- C02-H
+HEADER = "microscpi::parser::command_program_header"
+
+
+def rule_H(ck, lib):
+    """A header is resolved in exactly two ways: as a compound header relative to (root, current path), and - only if
+    that fails - as a common command under the root. No other lookup (e.g. a silent retry from the root) exists."""
+    ex, ps = ctx.summarize(lib, HEADER, ck, closure=True)
+    if not ck.anchor("C02-H", HEADER, ex):
+        return
+    b = lib.body(HEADER)
+    pn = [p.get("name") for p in b["params"]]
+    root, hdr = ("param", pn[0]), ("param", pn[1])
+    cl = ctx.returned_closure(hir.async_full(b["value"]))
+    inp = ("param", cl["params"][0].get("name"))
+    n = 0
+    for i, x in enumerate(ex):
+        apps = []
+        for e in x.effects:
+            if e[0] == "apply" and e[1][0] == "call":
+                apps.append((e[1][1].split("::")[-1], e[1][2], e[2], ("apply",) + tuple(e[1:])))
+        names = [a[0] for a in apps]
+        n += 1
+        ok = False
+        why = "applies %s" % names
+        if names[:1] == ["compound_command_program_header"] and apps[0][1] == (root, hdr) and apps[0][2] == (inp,):
+            first_ok = ps.decided(pathsum.St(x.conds), apps[0][3], OK)
+            if len(apps) == 1 and first_ok is not False:
+                ok = True
+            elif len(apps) == 2 and first_ok is False and names[1] == "common_command_program_header" and apps[1][1] == (root,) and apps[1][2] == (inp,):
+                ok = True
+            else:
+                why = "after the compound header (%s) it applies %s with %s" % ({True: "ok", False: "failed", None: "?"}[first_ok], names[1:], [[show_term(t) for t in a[1]] for a in apps[1:]])
+        else:
+            why = "first alternative is %s%s" % (names[:1], [show_term(t) for t in apps[0][1]] if apps else "")
+        ck.judge(ok, "C02-H", "command_program_header:path#%d" % n, "compound(root, path) first, common(root) only on its failure",
+                 "the header is also looked up another way: %s" % why, data=pathsum.show_exit(x)[:1200])
+    ck.floor("C02-H", "paths of command_program_header", n, 2)
